@@ -374,6 +374,64 @@ theorem sel_mdOf_obs (t : Table α) (hn : t.obs.Nodup) (m : List Bool) {id : Id}
 theorem sel_mdOf_samp (t : Table α) (m : List Bool) (s : Id) :
     (sel t m).mdOf? .samp s = t.mdOf? .samp s := rfl
 
+/-! ### `_cast_metadata`: all-empty metadata is no metadata -/
+
+theorem normMd_some {m : Option (List Md)} {md : List Md} (h : normMd m = some md) : m = some md := by
+  cases m with
+  | none => simp [normMd] at h
+  | some m0 =>
+    simp only [normMd] at h
+    split at h
+    · cases h
+    · exact h
+
+theorem castMd_obs (t : Table α) : (castMd t).obs = t.obs := rfl
+
+theorem castMd_wf (t : Table α) (h : t.WF) : (castMd t).WF := by
+  obtain ⟨h1, h2, h3, h4⟩ := h
+  exact ⟨h1, h2, fun md hmd => h3 md (normMd_some hmd), fun md hmd => h4 md (normMd_some hmd)⟩
+
+theorem getD_normMd (ids : List Id) (m : Option (List Md)) (id : Id) :
+    ((normMd m).bind (fun l => lookupBy ids l id)).getD [] = (m.bind (fun l => lookupBy ids l id)).getD [] := by
+  cases m with
+  | none => rfl
+  | some m0 =>
+    simp only [normMd]
+    split
+    · rename_i hall
+      simp only [Option.bind_none, Option.getD_none, Option.bind_some]
+      cases hl : lookupBy ids m0 id with
+      | none => rfl
+      | some e =>
+        have := (List.all_eq_true.mp hall) e (lookupBy_mem hl).2
+        simp only [Option.getD_some]
+        exact (List.isEmpty_iff.mp this).symm
+    · rfl
+
+theorem mdD_castMd (t : Table α) (ax : Axis) (id : Id) : mdD (castMd t) ax id = mdD t ax id := by
+  cases ax
+  · exact getD_normMd t.obs t.omd id
+  · exact getD_normMd t.samp t.smd id
+
+theorem mdD_normMd_samp (t : Table α) (r : Table α) (hs : r.samp = t.samp) (hm : r.smd = normMd t.smd) (s : Id) :
+    mdD r .samp s = mdD t .samp s := by
+  unfold mdD Table.mdOf?
+  simp only [Table.md, Table.ids, hs, hm]
+  exact getD_normMd t.samp t.smd s
+
+theorem mdD_of_mdOf {p t : Table α} {ax : Axis} {id : Id} (h : p.mdOf? ax id = t.mdOf? ax id) :
+    mdD p ax id = mdD t ax id := by
+  unfold mdD; rw [h]
+
+/-- a part that satisfies the clauses still does after passing through the constructor -/
+theorem partClauses_castMd [Zero α] [DecidableEq α] (t : Table α) (ks : List (Option Label)) (re : Bool)
+    (k : Label) (p : Table α) (h : (partClauses t ks re k p).ok = true) :
+    (partClauses t ks re k (castMd p)).ok = true := by
+  simp only [partClauses, Clauses.ok, List.all_cons, List.all_nil, Bool.and_true, Bool.and_eq_true,
+    mdD_castMd] at h ⊢
+  obtain ⟨hwf, hrest⟩ := h
+  exact ⟨(wfb_iff _).mpr (castMd_wf p ((wfb_iff _).mp hwf)), hrest⟩
+
 theorem partClauses_plain [Zero α] [DecidableEq α] (t : Table α) (ht : TableOk t) (ks : List (Option Label))
     (k : Label) : (partClauses t ks false k (sel t (maskOf ks k))).ok = true := by
   have hobs := sel_obs_eq_members t ht.obsNodup ks k
@@ -383,7 +441,7 @@ theorem partClauses_plain [Zero α] [DecidableEq α] (t : Table α) (ht : TableO
   · intro id hid s _
     exact sel_cell t ht.obsNodup _ hid s
   · intro id hid
-    exact sel_mdOf_obs t ht.obsNodup _ hid
+    exact mdD_of_mdOf (sel_mdOf_obs t ht.obsNodup _ hid)
   · intro s _
     rfl
 
@@ -601,9 +659,11 @@ theorem partClauses_removeEmpty [Zero α] [DecidableEq α] (t : Table α) (ht : 
     rw [removeEmpty_cell p hp hid hs]
     exact hcell id (removeEmpty_obs_sub p hid) s
   · intro id hid
+    apply mdD_of_mdOf
     rw [removeEmpty_mdOf_obs p hp hid]
     exact hmdo id (removeEmpty_obs_sub p hid)
   · intro s hs
+    apply mdD_of_mdOf
     rw [removeEmpty_mdOf_samp p hp hs]
     exact hmds s
   · exact hty
@@ -621,12 +681,13 @@ theorem partitionO_labels [Zero α] [DecidableEq α] (t : Table α) (ls : List L
 
 theorem mem_partitionO [Zero α] [DecidableEq α] (t : Table α) (ls : List Label) (re ign : Bool)
     (p : Label × Table α) (hp : p ∈ partitionO t ls re ign) :
-    p.2 = (if re then removeEmpty (sel t (maskOf (ls.map (eff ign)) p.1)) else sel t (maskOf (ls.map (eff ign)) p.1)) := by
+    p.2 = (if re then castMd (removeEmpty (sel t (maskOf (ls.map (eff ign)) p.1)))
+           else castMd (sel t (maskOf (ls.map (eff ign)) p.1))) := by
   unfold partitionO partO at hp
   cases re with
   | false =>
     simp only [Bool.false_eq_true, if_false, List.mem_map] at hp ⊢
-    obtain ⟨k, _, rfl⟩ := hp
+    obtain ⟨q, ⟨k, _, rfl⟩, rfl⟩ := hp
     rfl
   | true =>
     simp only [if_true, List.mem_map] at hp ⊢
@@ -661,8 +722,8 @@ theorem holdsPartitionO_model [Zero α] [DecidableEq α] (t : Table α) (ht : Ta
     have h := mem_partitionO t ls re ign p hp
     rw [h]
     cases re with
-    | false => exact partClauses_plain t ht _ _
-    | true => exact partClauses_removeEmpty t ht _ _
+    | false => exact partClauses_castMd _ _ _ _ _ (partClauses_plain t ht _ _)
+    | true => exact partClauses_castMd _ _ _ _ _ (partClauses_removeEmpty t ht _ _)
 
 /-! ### orientation: transposing twice gives the table back -/
 
@@ -924,7 +985,7 @@ theorem collapseO_eq (t : Table Rat) (hn : t.obs.Nodup) (ls : List Label) (norm 
         rows := (keptKeys t ls minSize).map (fun k => reduceRow norm t.samp.length (groupOf t ls k)),
         omd := if icm && !(keptKeys t ls minSize).isEmpty then
                  some ((keptKeys t ls minSize).map (fun k => cidsMd (members t.obs (ksOf ls) k))) else none,
-        samp := t.samp, smd := t.smd, ttype := t.ttype } := by
+        samp := t.samp, smd := normMd t.smd, ttype := t.ttype } := by
   have hkept : (partO t (ksOf ls)).filter (fun p => decide (minSize ≤ p.2.obs.length)) =
       (keptKeys t ls minSize).map (fun k => (k, groupOf t ls k)) := by
     unfold partO keptKeys
@@ -1068,7 +1129,7 @@ theorem reduceRow_length (t : Table Rat) (ht : TableOk t) (ls : List Label) (nor
 theorem collapseO_wf (t : Table Rat) (ht : TableOk t) (ls : List Label) (norm : Bool) (minSize : Nat)
     (icm : Bool) : (collapseO t ls norm minSize icm).WF := by
   rw [collapseO_eq t ht.obsNodup]
-  refine ⟨by simp, ?_, ?_, ht.wf.2.2.2⟩
+  refine ⟨by simp, ?_, ?_, fun md hmd => ht.wf.2.2.2 md (normMd_some hmd)⟩
   · intro r hr
     simp only [List.mem_map] at hr
     obtain ⟨k, _, rfl⟩ := hr
@@ -1117,7 +1178,7 @@ theorem holdsCollapseO_model (t : Table Rat) (ht : TableOk t) (ls : List Label) 
       rw [collapseO_eq t ht.obsNodup]
       rfl
   · rw [collapseO_eq t ht.obsNodup]
-    exact ⟨⟨rfl, rfl⟩, rfl⟩
+    exact ⟨⟨rfl, fun s _ => by apply mdD_normMd_samp <;> rfl⟩, rfl⟩
   · cases norm with
     | true => simp
     | false =>
@@ -1278,7 +1339,7 @@ theorem otmO_eq (t : Table Rat) (hn : t.obs.Nodup) (evss : List Events) (hl : ev
             rows := (otmBins t evss).map (otmRow t evss divide),
             omd := if icm && !(otmBins t evss).isEmpty then
                      some ((otmBins t evss).map (fun b => [(key, lastPath (allItems t evss) b)])) else none,
-            samp := t.samp, smd := t.smd, ttype := t.ttype } := by
+            samp := t.samp, smd := normMd t.smd, ttype := t.ttype } := by
   unfold otmO
   rw [hmd, hstrict]
   simp only [Bool.false_eq_true, if_false]
@@ -1335,7 +1396,7 @@ def otmTable (t : Table Rat) (evss : List Events) (divide icm : Bool) (key : Str
     rows := (otmBins t evss).map (otmRow t evss divide),
     omd := if icm && !(otmBins t evss).isEmpty then
              some ((otmBins t evss).map (fun b => [(key, lastPath (allItems t evss) b)])) else none,
-    samp := t.samp, smd := t.smd, ttype := t.ttype }
+    samp := t.samp, smd := normMd t.smd, ttype := t.ttype }
 
 theorem otmTable_cell (t : Table Rat) (ht : TableOk t) (evss : List Events) (hl : evss.length = t.obs.length)
     (divide icm : Bool) (key : String) {b : String} (hb : b ∈ otmBins t evss) {s : Id} (hs : s ∈ t.samp) :
@@ -1348,7 +1409,7 @@ theorem otmTable_cell (t : Table Rat) (ht : TableOk t) (evss : List Events) (hl 
 
 theorem otmTable_wf (t : Table Rat) (ht : TableOk t) (evss : List Events) (divide icm : Bool) (key : String) :
     (otmTable t evss divide icm key).WF := by
-  refine ⟨by simp [otmTable], ?_, ?_, ht.wf.2.2.2⟩
+  refine ⟨by simp [otmTable], ?_, ?_, fun md hmd => ht.wf.2.2.2 md (normMd_some hmd)⟩
   · intro r hr
     simp only [otmTable, List.mem_map] at hr
     obtain ⟨b, _, rfl⟩ := hr
@@ -1409,7 +1470,7 @@ theorem holdsOtmO_model (t : Table Rat) (ht : TableOk t) (evss : List Events) (h
       simp only [Bool.false_eq_true, if_false, hall, Clauses.ok, List.all_cons, List.all_nil, Bool.and_true,
         Bool.and_eq_true, decide_eq_true_eq, List.all_eq_true, List.contains_iff_mem]
       refine ⟨(wfb_iff _).mpr (otmTable_wf t ht evss divide icm key), otmBins_nodup t evss, ⟨?_, ?_⟩, ?_, ?_,
-        ⟨⟨rfl, rfl⟩, rfl⟩, ?_⟩
+        ⟨⟨rfl, fun s _ => by apply mdD_normMd_samp <;> rfl⟩, rfl⟩, ?_⟩
       · intro b hb; exact (mem_otmBins t evss b).mpr hb
       · intro b hb; exact (mem_otmBins t evss b).mp hb
       · intro b hb s hs
